@@ -87,6 +87,7 @@ package dnum
 //@   ensures! complete: !ok ==> !dnIsInt(dn) || (dn.exp == 19 && dn.coef >= 9223372036854775)
 //@ func (dn Dnum) ToInt() (n, ok)
 //@   ensures! exact: ok ==> dnIsInt(dn) && n == dnIntVal(dn)
+//@   ensures! complete: !ok ==> !dnIsInt(dn) || (dn.exp == 19 && dn.coef >= 9223372036854775)
 //@ lemma! fromint_toint64(n int64): -9999999999999999 <= n && n <= 9999999999999999 ==> ToInt64(FromInt(n)).ok && ToInt64(FromInt(n)).n == n
 
 //@ func check(c)
